@@ -429,10 +429,11 @@ class World:
                 self.emit(f'get {H(call[1])}', 'ok')
                 info['handed'][call[1]] = mgr.get_state(call[1])
             elif op == 'unget':
-                self.emit(f'unget {H(call[1])}', 'ok')
                 st = info['handed'].get(call[1])
-                if st is not None:
-                    mgr.unget_state(st)
+                if st is None:
+                    return  # the application has no state object to pass to unget_state
+                self.emit(f'unget {H(call[1])}', 'ok')
+                mgr.unget_state(st)
             elif op == 'setBody':
                 st = info['handed'].get(call[1])
                 if st is None or call[1] not in mgr._state_updates or mgr._state_updates[call[1]].new is not st:  # noqa: SLF001
